@@ -190,10 +190,13 @@ def r2_accounting(ctx, f, rep):
                 last = p.events[segs[-1][0]:]
                 for c in reversed([x for x in last if x['kind'] == 'cond']):
                     ex = c['expr']
-                    if ex[0] == 'call' and calls[ex[1]]['decl'].endswith('has_remaining_mut') and q.cond_truth(c) is False:
+                    tr = q.cond_truth(c)
+                    while ex[0] == 'unop' and ex[1] == 'Not' and tr is not None:
+                        ex, tr = ex[2], not tr
+                    if ex[0] == 'call' and calls[ex[1]]['decl'].endswith('has_remaining_mut') and tr is False:
                         exits.add('buffer-full')
                         break
-                    if ex[0] == 'binop' and ex[1] == 'Gt' and ex[2][0] == 'loopvar' and q.cond_truth(c) is False:
+                    if q.zero_test(c, lambda v: v[0] == 'loopvar') == 'zero':
                         exits.add('max-items')
                         break
                     if ex[0] == 'discr':
@@ -212,39 +215,126 @@ def r2_accounting(ctx, f, rep):
         rep.floor('C15-R2', nseg['nofit'], 2, fn + ' non-fitting iterations')
 
 
+def _cmp_side(body, outer, p, call, k):
+    """Which quantity the k-th operand of a usize comparison denotes: ('self'|'other', 'tx'|'len') or None.
+    Looks through the temporaries holding `x.data.len()` and through closure captures (mapped back to the
+    parameters of the enclosing function by name)."""
+    calls = {c['id']: c for c in p.calls()}
+    a = call['args'][k]
+    d = call['derefs'][k] if call.get('derefs') else None
+    what, pl = None, None
+    if a[0] == 'ref' and q.field_path(a[1])[1][-1:] == ['remaining_tx']:
+        what, pl = 'tx', a[1]
+    else:
+        v = d if d is not None else a
+        v = q.peel(v)
+        if v[0] == 'call' and v[1] in calls and calls[v[1]]['res'].endswith('::len'):
+            la = calls[v[1]]['args'][0]
+            if la[0] == 'ref' and q.field_path(la[1])[1][-1:] == ['data']:
+                what, pl = 'len', la[1]
+    if what is None:
+        return None
+    root = q.place_root(pl)
+    while root[0] == 'deref' and root[1][0] in ('load', 'fieldv') :
+        # closure environment: (*env.N) -> captured reference
+        nm = q.upvar_of(body, root[1])
+        if nm is None:
+            break
+        idx = [i for i, n in outer.local_names.items() if n == nm and 1 <= i <= outer.argc]
+        return ({1: 'self', 2: 'other'}.get(idx[0]) if idx else None, what)
+    if root == ('deref', ('param', 0, 1)):
+        return ('self', what)
+    if root == ('deref', ('param', 0, 2)):
+        return ('other', what)
+    return None
+
+
+def _is_self_other(args):
+    def isp(v, n):
+        return v == ('param', 0, n) or v == ('ref', ('deref', ('param', 0, n)), False)
+    return len(args) == 2 and isp(args[0], 1) and isp(args[1], 2)
+
+
+def _is_usize_cmp(c):
+    return c['res'].endswith('Ord for usize>::cmp') or c['res'].endswith('PartialOrd for usize>::partial_cmp')
+
+
 def r3_order(ctx, f, rep):
-    rep.rule('C15-R3', 'Entry::cmp compares remaining_tx first (self then other: the max-heap pops the most remaining first) '
-                       'and then data.len(); PartialOrd/PartialEq delegate to it')
+    rep.rule('C15-R3', 'Entry::cmp is the lexicographic order on (remaining_tx, data.len()), each compared self-then-other '
+                       '(the max-heap pops the most remaining first): the second comparison decides only when the first is '
+                       'Equal, in any of the forms a.cmp(b).then_with(|| c), a.cmp(b).then(c) or match a.cmp(b) { Equal => c, '
+                       'o => o }; PartialOrd/PartialEq delegate to it')
     b = f.fn('<broadcast::Entry as core::cmp::Ord>::cmp')
+    n = 0
     for p in ctx.paths(f, b, 'none'):
+        if p.end != 'return':
+            continue
+        n += 1
         calls = {c['id']: c for c in p.calls()}
-        cs = p.calls()
-        good = len(cs) == 2 and cs[0]['res'].endswith('Ord for usize>::cmp') and cs[1]['res'] == 'core::cmp::Ordering::then_with'
+        cmps = [c for c in p.calls() if _is_usize_cmp(c)]
+        good = bool(cmps) and [_cmp_side(b, b, p, cmps[0], 0), _cmp_side(b, b, p, cmps[0], 1)] == [('self', 'tx'), ('other', 'tx')]
+        first = ('call', cmps[0]['id']) if cmps else None
+        second_ok = False
         if good:
-            a0, a1 = cs[0]['args']
-            good = a0 == ('ref', q.self_field('remaining_tx'), False) and a1[0] == 'ref' and \
-                q.field_path(a1[1])[1] == ['remaining_tx'] and q.place_root(a1[1]) == ('deref', ('param', 0, 2))
-            clo = cs[1]['args'][1]
-            good = good and cs[1]['args'][0] == ('call', cs[0]['id']) and clo[0] == 'agg' and clo[1] == 'closure' and \
-                p.ret == ('call', cs[1]['id'])
-            if good:
-                cb = f.fn(clo[2])
-                cps = ctx.paths(f, cb, 'none')
-                names = [c['res'].split('::')[-1] for c in cps[0].calls()] if len(cps) == 1 else []
-                good = names.count('len') == 2 and names[-1] == 'cmp'
-                if good:
-                    lens = [c for c in cps[0].calls() if c['res'].endswith('::len')]
-                    first, second = lens[0]['args'][0], lens[1]['args'][0]
-                    good = 'self' in (q.upvar_of(cb, q.place_root(first[1])[1]) or '') and \
-                        'other' in (q.upvar_of(cb, q.place_root(second[1])[1]) or '')
-        rep.check(good, 'C15-R3', b.nname, 'cmp = self.remaining_tx.cmp(&other.remaining_tx).then_with(|| self.data.len().cmp('
-                  '&other.data.len()))', construct='entry-cmp')
-    for nm, callee in (('<broadcast::Entry as core::cmp::PartialOrd>::partial_cmp', 'cmp'),
-                       ('<broadcast::Entry as core::cmp::PartialEq>::eq', 'cmp')):
-        pb = f.fn(nm)
-        ps = ctx.paths(f, pb, 'none')
-        good = len(ps) == 1 and any(c['res'] == '<broadcast::Entry as core::cmp::Ord>::cmp' for c in ps[0].calls())
-        rep.check(good, 'C15-R3', nm, 'delegates to Ord::cmp', construct='delegates')
+            # how does the path depend on the first comparison?
+            tests = [c for c in p.conds() if c['expr'][0] == 'discr' and c['expr'][1] == first]
+            r = p.ret
+            if tests:
+                vs = q.cond_variants(f, tests[-1])
+                if vs == {'Equal'}:
+                    second_ok = r[0] == 'call' and r[1] in calls and _is_usize_cmp(calls[r[1]]) and r != first and \
+                        [_cmp_side(b, b, p, calls[r[1]], 0), _cmp_side(b, b, p, calls[r[1]], 1)] == [('self', 'len'), ('other', 'len')]
+                else:
+                    second_ok = 'Equal' not in vs and (r == first or (r[0] == 'variant' and {r[2]} == vs))
+            elif r[0] == 'call' and r[1] in calls and calls[r[1]]['res'] in ('core::cmp::Ordering::then_with', 'core::cmp::Ordering::then'):
+                t = calls[r[1]]
+                if t['args'][0] == first:
+                    nxt = t['args'][1]
+                    if nxt[0] == 'agg' and nxt[1] == 'closure':
+                        cb = f.fn(nxt[2])
+                        cps = [x for x in ctx.paths(f, cb, 'none') if x.end == 'return']
+                        second_ok = len(cps) == 1
+                        if second_ok:
+                            cp = cps[0]
+                            cc = {c['id']: c for c in cp.calls()}
+                            rr = cp.ret
+                            second_ok = rr[0] == 'call' and rr[1] in cc and _is_usize_cmp(cc[rr[1]]) and \
+                                [_cmp_side(cb, b, cp, cc[rr[1]], 0), _cmp_side(cb, b, cp, cc[rr[1]], 1)] == [('self', 'len'), ('other', 'len')]
+                    elif nxt[0] == 'call' and nxt[1] in calls and _is_usize_cmp(calls[nxt[1]]):
+                        second_ok = [_cmp_side(b, b, p, calls[nxt[1]], 0), _cmp_side(b, b, p, calls[nxt[1]], 1)] == \
+                            [('self', 'len'), ('other', 'len')]
+        rep.check(good and second_ok, 'C15-R3', b.nname, 'cmp = (self.remaining_tx, self.data.len()) lexicographically against '
+                  '(other.remaining_tx, other.data.len())', construct='entry-cmp')
+    rep.floor('C15-R3', n, 1, 'Entry::cmp returning paths')
+    ordcmp = '<broadcast::Entry as core::cmp::Ord>::cmp'
+    pb = f.fn('<broadcast::Entry as core::cmp::PartialOrd>::partial_cmp')
+    for p in ctx.paths(f, pb, 'none'):
+        if p.end != 'return':
+            continue
+        cs = [c for c in p.calls() if c['res'] == ordcmp]
+        good = len(cs) == 1 and _is_self_other(cs[0]['args']) and p.ret[0] == 'agg' and p.ret[3] == 'Some' \
+            and p.ret[5][0] == ('call', cs[0]['id'])
+        rep.check(good, 'C15-R3', pb.nname, 'partial_cmp = Some(self.cmp(other))', construct='delegates')
+    eb = f.fn('<broadcast::Entry as core::cmp::PartialEq>::eq')
+    for p in ctx.paths(f, eb, 'none'):
+        if p.end != 'return':
+            continue
+        calls = {c['id']: c for c in p.calls()}
+        cs = [c for c in p.calls() if c['res'] == ordcmp]
+        good = len(cs) == 1 and _is_self_other(cs[0]['args'])
+        if good:
+            first = ('call', cs[0]['id'])
+            r = p.ret
+            tests = [c for c in p.conds() if c['expr'][0] == 'discr' and c['expr'][1] == first]
+            if tests:
+                vs = q.cond_variants(f, tests[-1])
+                good = r[0] == 'const' and bool(r[2]) == (vs == {'Equal'}) and (vs == {'Equal'} or 'Equal' not in vs)
+            else:
+                good = (r[0] == 'call' and r[1] in calls and calls[r[1]]['res'] == 'core::cmp::Ordering::is_eq' and
+                        calls[r[1]]['args'][0] == first) or \
+                       (r[0] == 'binop' and r[1] == 'Eq' and first in (r[2], r[3]) and
+                        any(x[0] == 'variant' and x[2] == 'Equal' for x in (r[2], r[3])))
+        rep.check(good, 'C15-R3', eb.nname, 'eq = (self.cmp(other) is Equal)', construct='delegates')
 
 
 def r4_r5_consumers_enqueuers(ctx, f, rep):
